@@ -261,12 +261,12 @@ func cmdCheck(args []string) int {
 		it  *solveItem
 	}
 	var viols []viol
-	var kfLines []string
+	kfLines := []string{}
 	nObl, nDis, nCover, nCoverSat := 0, 0, 0, 0
 	solverTime := map[string]float64{}
 	winners := map[string]int{}
 	var samples []map[string]any
-	var slow []string
+	slow := []string{}
 	disagreements := 0
 	perFn := map[string]*fnReport{}
 	kfSeen := map[string]bool{}
@@ -418,7 +418,7 @@ func cmdCheck(args []string) int {
 		tb = append(tb, "assumed contract: "+k)
 	}
 	sort.Strings(tb[2:])
-	var as []string
+	as := []string{}
 	for k := range assumptions {
 		as = append(as, k)
 	}
